@@ -28,6 +28,31 @@ func init() {
 // establishes reports whether every nil-error return of fn lies behind the checked success
 // of a call satisfying isX (directly, or via a callee of the module that itself establishes it).
 func establishes(fn *ssa.Function, isX func(c *ssa.Call) bool, depth int) bool {
+	if establishesDom(fn, isX, depth) {
+		return true
+	}
+	if fn == nil || depth > 3 || len(fn.Blocks) == 0 || pathProgram == nil {
+		return false
+	}
+	n := fn.Signature.Results().Len()
+	if n == 0 || !flow.IsErrorType(fn.Signature.Results().At(n-1).Type()) {
+		return false
+	}
+	// decided on the function's paths (E9)
+	good, _ := pathsOf(pathProgram, fn).nilOnlyAfter(func(c *ssa.Call) bool {
+		if isX(c) {
+			return true
+		}
+		cal := flow.Callee(c)
+		return cal != nil && cal != fn && cal.Pkg != nil && cal.Pkg == fn.Pkg && establishes(cal, isX, depth+1)
+	})
+	return good
+}
+
+// pathProgram is the program the path engine reports positions against (set by the property runners).
+var pathProgram *load.Program
+
+func establishesDom(fn *ssa.Function, isX func(c *ssa.Call) bool, depth int) bool {
 	if fn == nil || depth > 3 || len(fn.Blocks) == 0 {
 		return false
 	}
@@ -67,6 +92,23 @@ func establishes(fn *ssa.Function, isX func(c *ssa.Call) bool, depth int) bool {
 // successDominates: block b is dominated by the `err == nil` edge of some call satisfying isX
 // (or of a module function that establishes it).
 func successDominates(fn *ssa.Function, b *ssa.BasicBlock, isX func(c *ssa.Call) bool, depth int) bool {
+	if successDominatesDom(fn, b, isX, depth) {
+		return true
+	}
+	if pathProgram == nil || depth > 3 || len(b.Instrs) == 0 {
+		return false
+	}
+	good, _ := pathsOf(pathProgram, fn, b.Instrs[0]).successBefore(b.Instrs[0], func(c *ssa.Call) bool {
+		if isX(c) {
+			return true
+		}
+		cal := flow.Callee(c)
+		return cal != nil && cal != fn && cal.Pkg != nil && cal.Pkg == fn.Pkg && establishes(cal, isX, depth+1)
+	})
+	return good
+}
+
+func successDominatesDom(fn *ssa.Function, b *ssa.BasicBlock, isX func(c *ssa.Call) bool, depth int) bool {
 	conds := flow.DomConds(b)
 	for _, c := range flow.Calls(fn) {
 		call, ok := c.(*ssa.Call)
